@@ -144,7 +144,7 @@ func (g *c04Gate) point(name string) {
 	close(parked)
 	select {
 	case <-rel:
-	case <-time.After(5 * time.Second): // a harness bug must not wedge the shard
+	case <-time.After(30 * time.Second): // a harness bug must not wedge the shard
 	}
 }
 
@@ -578,16 +578,23 @@ func (x *c04World) stepParked(o c04Op) {
 	same := b.Pod == o.A.Pod
 	beforeB := x.podView(b.Pod)
 	midStore := x.w.storeDump()
-	ctxB, cancelB := context.WithTimeout(context.Background(), 2*time.Second)
+	ctxB, cancelB := context.WithTimeout(context.Background(), 10*time.Second)
 	defer cancelB()
 	doneB := make(chan c04Result, 1)
 	go func() { doneB <- x.issue(ctxB, b, cidB) }()
 	var resB c04Result
 	gotB := false
+	// a request for ANOTHER pod may legitimately have to wait for A (it may need the pool
+	// worker A is parked in); a request for the SAME pod is rejected at once - give it a
+	// generous real-time bound so that a loaded machine cannot turn slowness into an alarm
+	waitB := 150 * time.Millisecond
+	if same {
+		waitB = 8 * time.Second
+	}
 	select {
 	case resB = <-doneB:
 		gotB = true
-	case <-time.After(150 * time.Millisecond):
+	case <-time.After(waitB):
 	}
 	if same {
 		x.labels["overlap-same-pod"] = true
@@ -614,13 +621,13 @@ func (x *c04World) stepParked(o c04Op) {
 		// in flight every further request for the pod is rejected as well
 		for _, k3 := range []string{"get", b.Kind} {
 			r3 := c04Req{Kind: k3, Pod: b.Pod}
-			ctx3, cancel3 := context.WithTimeout(context.Background(), 2*time.Second)
+			ctx3, cancel3 := context.WithTimeout(context.Background(), 10*time.Second)
 			done3 := make(chan c04Result, 1)
 			go func() { done3 <- x.issue0(ctx3, r3, cidB) }()
 			var res3 c04Result
 			select {
 			case res3 = <-done3:
-			case <-time.After(500 * time.Millisecond):
+			case <-time.After(8 * time.Second):
 				cancel3()
 				close(x.gate.release)
 				c.Fatalf("third concurrent %s for %s did not return promptly while a request for the pod was in flight", k3, c04PodName(b.Pod))
